@@ -973,7 +973,8 @@ impl<'a> Sem<'a> {
         // number of positional args: at least the required ones
         let npos = if ci.targs.is_empty() { 0 } else { required + self.rng.below(ci.targs.len() - required + 1) };
         let mut positional = Vec::new();
-        if npos == 0 && !force_angle {
+        let named_only = npos == 0 && !ci.targs.is_empty() && self.rng.chance(1, 6);
+        if npos == 0 && !force_angle && !named_only {
             self.p.classrefs.push(ClassRefInfo { file: self.cur, name_range, class_decl: ci.decl, positional, is_multiclass: false, args_range: None, required, params: ci.targs.len() });
             return;
         }
@@ -989,6 +990,27 @@ impl<'a> Sem<'a> {
             self.value(&t, depth + 1);
             let r = (v0, self.here());
             self.p.typed_sites.push((self.cur, r, t, "template-arg"));
+        }
+        // some of the remaining (defaulted) parameters by name: `K<1, p3 = 5>`
+        if npos < ci.targs.len() && self.rng.chance(1, 3) && self.on("named-argument") {
+            let mut rest: Vec<usize> = (npos..ci.targs.len()).collect();
+            self.rng.shuffle(&mut rest);
+            let k = 1 + self.rng.below(rest.len());
+            for (j, &i) in rest.iter().take(k).enumerate() {
+                if npos > 0 || j > 0 {
+                    self.w(", ");
+                }
+                let st = self.here();
+                let pname = ci.targs[i].0.clone();
+                self.w(&pname);
+                self.w(" = ");
+                let t = ci.targs[i].1.clone();
+                let v0 = self.here();
+                self.value(&t, depth + 1);
+                let r = (v0, self.here());
+                self.p.typed_sites.push((self.cur, r, t, "template-arg"));
+                self.span("named-argument", st);
+            }
         }
         self.w(">");
         let ar = Some((a0, self.here()));
